@@ -139,26 +139,20 @@ def check_string(ctx, case):
     leaf_ok = [x[:2] for x in leaves_i] == [x[:2] for x in leaves_r]
     ctx.count("value_comparisons", compared)
     if witness is not None or not leaf_ok:
-        explained = False
-        if RP.has_div_chain(ast):
-            ast2 = RP.parse(s, muldiv_right=True)
-            w2, _ = values_agree(root, ast2, assigns)
-            explained = w2 is None and [x[:2] for x in impl_leaves(root)] == [x[:2] for x in ref_leaves(ast2)]
-        det = {"impl_tree": E.text_of(root), "reference_ast": repr(ast)[:400], "witness": witness, "leaves_equal": leaf_ok, "explained_by_right_nested_muldiv_chain": explained}
+        det = {"impl_tree": E.text_of(root), "reference_ast": repr(ast)[:400], "witness": witness, "leaves_equal": leaf_ok}
         kindb = "value" if witness is not None else "operand-sequence"
-        return ctx.fail((kindb, "muldiv-chain" if explained else "other"), case, det)
-    # "no operand is re-associated": the shape of the tree is the shape the grammar prescribes. The only tolerated other
-    # shape is the one known finding F-C03-1 describes (explicit * and / chains nested to the right; where that changes the
-    # value it was reported above): a tree that is neither is a new re-association (e.g. implicit factor runs folded from
-    # the right), even when + and * make the exact values agree
+        return ctx.fail((kindb, "other"), case, det)
+    # "no operand is re-associated": the shape of the tree is the shape the grammar prescribes. The only other shape that is
+    # attributed to known finding F-C03-1 is "explicit products nest to the right" (x * y * z read as x * (y * z); exact
+    # values agree); any other shape is a new re-association (e.g. implicit factor runs folded from the right, or a quotient
+    # that swallows what follows its divisor)
     try:
         from .schemas import tree_to_ast
 
         shape = tree_to_ast(root)
-        if shape != ast and shape != RP.parse(s, muldiv_right=True):
-            return ctx.fail(("re-associated",), case, {"impl_tree": repr(shape)[:300], "grammar_reading": repr(ast)[:300]})
         if shape != ast:
-            ctx.count("shape_is_the_right_nested_muldiv_reading(F-C03-1, values agree)")
+            conv = shape == RP.parse(s, muldiv_right=True)
+            return ctx.fail(("re-associated", "product-chain" if conv else "other"), case, {"impl_tree": repr(shape)[:300], "grammar_reading": repr(ast)[:300], "is_the_right_nested_product_reading": conv})
     except RP.Reject:
         ctx.count("structure_comparison_failed")
     if [x[2] for x in leaves_i if x[0] == "c"] != [x[2] for x in leaves_r if x[0] == "c"]:
@@ -166,10 +160,10 @@ def check_string(ctx, case):
 
 
 def classify_right_nesting(bucket, case, detail, args):
-    return bucket == "value|muldiv-chain" and isinstance(detail, dict) and detail.get("explained_by_right_nested_muldiv_chain") is True
+    return bucket == "re-associated|product-chain" and isinstance(detail, dict) and detail.get("is_the_right_nested_product_reading") is True
 
 
-CLASSIFIERS = {"right_nested_muldiv_chain": classify_right_nesting}
+CLASSIFIERS = {"right_nested_product_chain": classify_right_nesting}
 
 
 def replay(ctx, case):
